@@ -151,6 +151,16 @@ theorem history_versions (T : Path) (as : List Attempt) (h : ∀ a ∈ as, Attem
       · rw [ha] at e0; cases e0
       · rw [ha] at e0; cases e0
 
+/-- **open_atomic.**  Opening a database at start-up or by `reload()` (`UsersDictionary.open`,
+`ChannelsDictionary.open`, `NetworksDictionary.open`) reads the file and then flushes what it has
+read — one atomic write whose content is a function `reser` of the old file.  Killed anywhere inside
+`open()`, the file is the old one or the completely re-written one; never a file holding only the
+records read so far. -/
+theorem open_atomic (c : Cfg) (h : CfgOk c) (reser : Option Bytes → List (Bytes × Nat)) (fs : FS) (k : Nat) :
+    Good (fs.disk c.filename) (newContent (reser (fs.disk c.filename)))
+      ((crashAt fs (flushOps c (reser (fs.disk c.filename)) fs) k).disk c.filename) :=
+  crash_atomic c h _ fs k
+
 /-! ### several files in one `world.flush()` -/
 
 /-- **multi_flush_atomic.**  `world.flush()` (and the periodic flusher) writes several files one
